@@ -7,6 +7,7 @@ package eng
 
 import (
 	"fmt"
+	"sync"
 	"go/ast"
 	"go/token"
 	"go/types"
@@ -35,6 +36,7 @@ type Program struct {
 	scc       map[*ssa.Function]int
 	sccSize   map[int]int
 	selfRec   map[*ssa.Function]bool
+	sccOnce   sync.Once
 }
 
 // Load type-checks patterns in dir with -tags verif and builds SSA.
@@ -299,9 +301,10 @@ func (p *Program) concreteTypes() []types.Type {
 
 // computeSCC runs Tarjan over the module call graph (once).
 func (p *Program) computeSCC() {
-	if p.scc != nil {
-		return
-	}
+	p.sccOnce.Do(p.computeSCC1)
+}
+
+func (p *Program) computeSCC1() {
 	p.scc = map[*ssa.Function]int{}
 	p.sccSize = map[int]int{}
 	p.selfRec = map[*ssa.Function]bool{}
